@@ -58,6 +58,11 @@ def run(ctx):
                    [(b'Content-Type', [b'text/html']), (b'etag', [b'"x"']), (b'X-A', [b''])], [(b'x_under', [b'1'])], [(b'x-a', [b'1', b'', b'2'])]):
             e = ex(ver, b'https://example.com/', b'GET', rs if ver != 'b3' else [], 200, rs, b'sig', b'payload')
             ops += [f'sxg.hdr {exs(e)}', f'sxg.hdrint {exs(e)}', f'sxg.write {exs(e)}', f'sxg.msg {exs(e)} {"bb" * 32} {hexs(b"https://example.com/v")} 5 10']
+        # header VALUES that are not UTF-8 (ISO-8859-1 as servers send it), with controls: bytes as given in the header block, the hash, the message
+        for rs in ([(b'Content-Type', [b'text/html']), (b'Content-Disposition', [b'attachment; filename="r\xe9sum\xe9.pdf"'])], [(b'Server', [b'Caf\xe9/1.0'])], [(b'X-Bin', [b'\xff\xfe\x80'])],
+                   [(b'X-T', [b'a\tb']), (b'X-U', [b'caf\xc3\xa9'])], [(b'X-V', [b'\xc3']), (b'X-W', [b'a', b'\xe9', b'b'])]):
+            e = ex(ver, b'https://example.com/', b'GET', rs if ver != 'b3' else [], 200, rs, b'sig', b'payload')
+            ops += [f'sxg.hdr {exs(e)}', f'sxg.hdrint {exs(e)}', f'sxg.write {exs(e)}', f'sxg.msg {exs(e)} {"bb" * 32} {hexs(b"https://example.com/v")} 5 10']
         # request URL spellings that a parse / re-serialise step would change: the signed message and the file carry the bytes as given
         for uri in (b'https://example.com/a|b.html', b'https://example.com/caf\xc3\xa9', b'https://example.com/page#', b'HTTPS://example.com/', b'https://EXAMPLE.com/x',
                     b'https://example.com/%7Euser', b'https://example.com/%7euser', b'https://example.com/a b', b'https://example.com/?q=a|b&r=%41', b'https://example.com:443/',
